@@ -35,8 +35,11 @@ theorem lockLoop_RBody (cfg : Cfg) (b lk : Nat) (n : Nat) : Rel RBody (lockLoop 
     unfold lockLoop
     simp only [bind_eq]
     rel_steps RBody.pre
-    · exact backendCmd_RBody _ _ _ trivial
-    · exact ih
+    all_goals first
+      | exact backendCmd_RBody _ _ _ trivial
+      | exact modB_RBody _ _
+      | exact Rel.modW _ fun _ => ⟨Nat.le_refl _, rfl⟩
+      | exact ih
 
 theorem lockUpdates_RBody (cfg : Cfg) (b k : Nat) : Rel RBody (lockUpdates cfg b k) := by
   unfold lockUpdates
@@ -75,6 +78,27 @@ theorem txDelete_RBody (cfg : Cfg) (b k : Nat) : Rel RBody (txDelete cfg b k) :=
   rel_steps RBody.pre
   exact lockUpdates_RBody _ _ _
 
+theorem lockAll_RBody (cfg : Cfg) (b : Nat) (ks : List Nat) : Rel RBody (lockAll cfg b ks) := by
+  induction ks with
+  | nil => exact Rel.pure RBody.pre _
+  | cons k rest ih =>
+    unfold lockAll
+    simp only [bind_eq]
+    exact Rel.bind RBody.pre (lockUpdates_RBody _ _ _) fun _ => ih
+
+theorem txSetMany_RBody (cfg : Cfg) (b : Nat) (kvs : List (Nat × Int)) (ttl : Option Nat) :
+    Rel RBody (txSetMany cfg b kvs ttl) := by
+  unfold txSetMany wrap
+  simp only [bind_eq, pure_eq]
+  rel_steps RBody.pre
+  all_goals first | exact lockAll_RBody _ _ _ | exact modB_RBody _ _
+
+theorem txDelMany_RBody (cfg : Cfg) (b : Nat) (ks : List Nat) : Rel RBody (txDelMany cfg b ks) := by
+  unfold txDelMany wrap
+  simp only [bind_eq, pure_eq]
+  rel_steps RBody.pre
+  all_goals first | exact lockAll_RBody _ _ _ | exact modB_RBody _ _
+
 theorem emit_RBody (r : Reply) : Rel RBody (emit r) := Rel.modW _ fun _ => ⟨Nat.le_refl _, rfl⟩
 
 theorem bodyStep_RBody (cfg : Cfg) (c : BodyCmd) : Rel RBody (bodyStep cfg c) := by
@@ -85,6 +109,8 @@ theorem bodyStep_RBody (cfg : Cfg) (c : BodyCmd) : Rel RBody (bodyStep cfg c) :=
   · exact Rel.bind RBody.pre (txDelete_RBody _ _ _) fun _ => emit_RBody _
   · exact Rel.modW _ fun _ => ⟨Nat.le_refl _, rfl⟩
   · exact Rel.throw RBody.pre _
+  · exact Rel.bind RBody.pre (txSetMany_RBody _ _ _ _) fun _ => emit_RBody _
+  · exact Rel.bind RBody.pre (txDelMany_RBody _ _ _) fun _ => emit_RBody _
 
 theorem runBody_RBody (cfg : Cfg) (body : List BodyCmd) : Rel RBody (runBody cfg body) := by
   induction body with
@@ -196,7 +222,7 @@ theorem lockLoop_Clean (cfg : Cfg) (b lk : Nat) (n : Nat) : Clean cfg (lockLoop 
     unfold lockLoop
     simp only [bind_eq]
     clean_steps
-    exact ih
+    all_goals first | exact modB_Clean _ _ _ | exact ih
 
 theorem lockUpdates_Clean (cfg : Cfg) (b k : Nat) : Clean cfg (lockUpdates cfg b k) := by
   unfold lockUpdates
@@ -234,6 +260,27 @@ theorem txDelete_Clean (cfg : Cfg) (b k : Nat) : Clean cfg (txDelete cfg b k) :=
   clean_steps
   all_goals first | exact modB_Clean _ _ _ | exact lockUpdates_Clean _ _ _
 
+theorem lockAll_Clean (cfg : Cfg) (b : Nat) (ks : List Nat) : Clean cfg (lockAll cfg b ks) := by
+  induction ks with
+  | nil => exact Clean.pure _
+  | cons k rest ih =>
+    unfold lockAll
+    simp only [bind_eq]
+    exact Clean.bind (lockUpdates_Clean _ _ _) fun _ => ih
+
+theorem txSetMany_Clean (cfg : Cfg) (b : Nat) (kvs : List (Nat × Int)) (ttl : Option Nat) :
+    Clean cfg (txSetMany cfg b kvs ttl) := by
+  unfold txSetMany wrap
+  simp only [bind_eq, pure_eq]
+  clean_steps
+  all_goals first | exact modB_Clean _ _ _ | exact lockAll_Clean _ _ _
+
+theorem txDelMany_Clean (cfg : Cfg) (b : Nat) (ks : List Nat) : Clean cfg (txDelMany cfg b ks) := by
+  unfold txDelMany wrap
+  simp only [bind_eq, pure_eq]
+  clean_steps
+  all_goals first | exact modB_Clean _ _ _ | exact lockAll_Clean _ _ _
+
 theorem emit_Clean (cfg : Cfg) (r : Reply) : Clean cfg (emit r) := Clean.modW _ fun _ => rfl
 
 theorem bodyStep_Clean (cfg : Cfg) (c : BodyCmd) : Clean cfg (bodyStep cfg c) := by
@@ -244,6 +291,8 @@ theorem bodyStep_Clean (cfg : Cfg) (c : BodyCmd) : Clean cfg (bodyStep cfg c) :=
   · exact Clean.bind (txDelete_Clean _ _ _) fun _ => emit_Clean _ _
   · exact Clean.modW _ fun _ => rfl
   · exact Clean.throw _
+  · exact Clean.bind (txSetMany_Clean _ _ _ _) fun _ => emit_Clean _ _
+  · exact Clean.bind (txDelMany_Clean _ _ _) fun _ => emit_Clean _ _
 
 theorem runBody_Clean (cfg : Cfg) (body : List BodyCmd) : Clean cfg (runBody cfg body) := by
   induction body with
